@@ -925,6 +925,11 @@ impl<'a, R: Read, E: Encryption> Builder<'a, R, E> {
             } else {
                 self.to_writer(rng, &mut enc)?;
             }
+
+            // Write out the buffered tail explicitly, `Drop` has to ignore I/O errors.
+            enc.finish()?;
+            drop(enc);
+            line_wrapper.finish()?;
         }
 
         // write footer
